@@ -26,6 +26,7 @@ class Ty:
 class TPrim(Ty):
     def __init__(self, kind): self.kind = kind; self.key = kind
 TInt, TBool, TStr, TFloat, TNone = (TPrim(k) for k in ('int', 'bool', 'str', 'float', 'none'))
+TBytes = TPrim('bytes')   # byte strings as z3 strings of code points 0..255 (latin-1 view)
 TExc = TPrim('exc')   # python-level exception value (never packed)
 
 class TEnum(Ty):
@@ -101,29 +102,58 @@ class TMap(Ty):
     kind = 'map'
     def __init__(self, k, v): self.k = k; self.v = v; self.key = 'Map[%s,%s]' % (k.key, v.key)
 
+class TOMap(Ty):
+    """insertion-ordered dict: (n, ks: Int->K, pos: K->Int, val: K->V) with  forall i<n. pos[ks[i]] == i
+    (pos is the ghost inverse of ks; membership of k is  0 <= pos[k] < n and ks[pos[k]] == k : quantifier-free)"""
+    kind = 'omap'
+    def __init__(self, k, v): self.k = k; self.v = v; self.key = 'OMap[%s,%s]' % (k.key, v.key)
+
+def omap_member(m, kt):
+    n, ks, pos, val = m.t
+    p = z3.Select(pos, kt)
+    return z3.And(p >= 0, p < n, z3.Select(ks, p) == kt)
+
+def _pattern_ok(t, budget=60):
+    stack = [t]; n = 0
+    while stack:
+        x = stack.pop(); n += 1
+        if n > budget or z3.is_quantifier(x): return False
+        if z3.is_app(x) and x.decl().kind() == z3.Z3_OP_ITE: return False
+        stack.extend(x.children())
+    return True
+
+def omap_inv(m):
+    n, ks, pos, val = m.t
+    i = fresh('oi', z3.IntSort())
+    body = z3.Implies(z3.And(i >= 0, i < n), z3.Select(pos, z3.Select(ks, i)) == i)
+    q = z3.ForAll([i], body, patterns=[z3.Select(ks, i)]) if _pattern_ok(ks) else z3.ForAll([i], body)
+    return [n >= 0, q]
+
 def sort_of(ty):
     k = ty.key
     if k in _sort_cache and not isinstance(ty, TEnum):
         return _sort_cache[k]
     if ty is TInt: s = z3.IntSort()
     elif ty is TBool: s = z3.BoolSort()
-    elif ty is TStr: s = z3.StringSort()
+    elif ty is TStr or ty is TBytes: s = z3.StringSort()
     elif ty is TFloat: s = z3.RealSort()
     elif ty is TNone:
         s, _ = z3.EnumSort('NoneT', ['none_v'])
     elif isinstance(ty, (TEnum, TAny, TRef)): return ty.sort()
     elif isinstance(ty, TOpt):
-        d = z3.Datatype(_dtname(ty)); d.declare('none'); d.declare('some', ('val', sort_of(ty.inner))); s = d.create()
+        _n = _dtname(ty); d = z3.Datatype(_n); d.declare(_n + '_none'); d.declare(_n + '_some', (_n + '_val', sort_of(ty.inner))); s = d.create()
     elif isinstance(ty, TTuple):
-        d = z3.Datatype(_dtname(ty)); d.declare('mk', *[('f%d' % i, sort_of(t)) for i, t in enumerate(ty.items)]); s = d.create()
+        _n = _dtname(ty); d = z3.Datatype(_n); d.declare(_n + '_mk', *[(_n + '_f%d' % i, sort_of(t)) for i, t in enumerate(ty.items)]); s = d.create()
     elif isinstance(ty, TRec):
-        d = z3.Datatype(_dtname(ty)); d.declare('mk', *[(n, sort_of(t)) for n, t in ty.fields]); s = d.create()
+        _n = _dtname(ty); d = z3.Datatype(_n); d.declare(_n + '_mk', *[(_n + '_' + n, sort_of(t)) for n, t in ty.fields]); s = d.create()
     elif isinstance(ty, TSeq):
-        d = z3.Datatype(_dtname(ty)); d.declare('mk', ('len', z3.IntSort()), ('arr', z3.ArraySort(z3.IntSort(), sort_of(ty.elem)))); s = d.create()
+        _n = _dtname(ty); d = z3.Datatype(_n); d.declare(_n + '_mk', (_n + '_len', z3.IntSort()), (_n + '_arr', z3.ArraySort(z3.IntSort(), sort_of(ty.elem)))); s = d.create()
     elif isinstance(ty, TSet):
-        d = z3.Datatype(_dtname(ty)); d.declare('mk', ('mem', z3.ArraySort(sort_of(ty.elem), z3.BoolSort())), ('card', z3.IntSort())); s = d.create()
+        _n = _dtname(ty); d = z3.Datatype(_n); d.declare(_n + '_mk', (_n + '_mem', z3.ArraySort(sort_of(ty.elem), z3.BoolSort())), (_n + '_card', z3.IntSort())); s = d.create()
+    elif isinstance(ty, TOMap):
+        _n = _dtname(ty); d = z3.Datatype(_n); d.declare(_n + '_mk', (_n + '_n', z3.IntSort()), (_n + '_ks', z3.ArraySort(z3.IntSort(), sort_of(ty.k))), (_n + '_pos', z3.ArraySort(sort_of(ty.k), z3.IntSort())), (_n + '_val', z3.ArraySort(sort_of(ty.k), sort_of(ty.v)))); s = d.create()
     elif isinstance(ty, TMap):
-        d = z3.Datatype(_dtname(ty)); d.declare('mk', ('dom', z3.ArraySort(sort_of(ty.k), z3.BoolSort())), ('val', z3.ArraySort(sort_of(ty.k), sort_of(ty.v))), ('card', z3.IntSort())); s = d.create()
+        _n = _dtname(ty); d = z3.Datatype(_n); d.declare(_n + '_mk', (_n + '_dom', z3.ArraySort(sort_of(ty.k), z3.BoolSort())), (_n + '_val', z3.ArraySort(sort_of(ty.k), sort_of(ty.v))), (_n + '_card', z3.IntSort())); s = d.create()
     else:
         raise Unsupported('no sort for %r' % ty)
     _sort_cache[k] = s
@@ -150,14 +180,15 @@ def pack(v):
     s = sort_of(ty)
     if isinstance(ty, TOpt):
         isnone, inner = v.t
-        if z3.is_true(isnone): return s.none
-        some = s.some(pack(inner))
+        if z3.is_true(isnone): return s.constructor(0)()
+        some = s.constructor(1)(pack(inner))
         if z3.is_false(isnone): return some
-        return z3.If(isnone, s.none, some)
-    if isinstance(ty, TTuple): return s.mk(*[pack(x) for x in v.t])
-    if isinstance(ty, TRec): return s.mk(*[pack(v.t[n]) for n, _ in ty.fields])
-    if isinstance(ty, (TSeq, TSet)): return s.mk(v.t[0], v.t[1])
-    if isinstance(ty, TMap): return s.mk(v.t[0], v.t[1], v.t[2])
+        return z3.If(isnone, s.constructor(0)(), some)
+    if isinstance(ty, TTuple): return s.constructor(0)(*[pack(x) for x in v.t])
+    if isinstance(ty, TRec): return s.constructor(0)(*[pack(v.t[n]) for n, _ in ty.fields])
+    if isinstance(ty, (TSeq, TSet)): return s.constructor(0)(v.t[0], v.t[1])
+    if isinstance(ty, TMap): return s.constructor(0)(v.t[0], v.t[1], v.t[2])
+    if isinstance(ty, TOMap): return s.constructor(0)(*v.t)
     raise Unsupported('pack %r' % ty)
 
 def unpack(t, ty):
@@ -165,7 +196,7 @@ def unpack(t, ty):
     if isinstance(ty, (TPrim, TEnum, TAny, TRef)): return V(ty, t)
     s = sort_of(ty)
     if isinstance(ty, TOpt):
-        return V(ty, (_simp(s.is_none(t)), unpack(_simp(s.val(t)), ty.inner)))
+        return V(ty, (_simp(s.recognizer(0)(t)), unpack(_simp(s.accessor(1, 0)(t)), ty.inner)))
     if isinstance(ty, TTuple):
         return V(ty, [unpack(_simp(s.accessor(0, i)(t)), it) for i, it in enumerate(ty.items)])
     if isinstance(ty, TRec):
@@ -174,6 +205,8 @@ def unpack(t, ty):
         return V(ty, (_simp(s.accessor(0, 0)(t)), _simp(s.accessor(0, 1)(t))))
     if isinstance(ty, TMap):
         return V(ty, tuple(_simp(s.accessor(0, i)(t)) for i in range(3)))
+    if isinstance(ty, TOMap):
+        return V(ty, tuple(_simp(s.accessor(0, i)(t)) for i in range(4)))
     raise Unsupported('unpack %r' % ty)
 
 def _simp(t):
@@ -199,6 +232,10 @@ def havoc(ty, name, facts):
         card = fresh(name + '_card', z3.IntSort())
         facts.extend(set_facts(mem, card, ty))
         return V(ty, (mem, card))
+    if isinstance(ty, TOMap):
+        m = V(ty, (fresh(name + '_n', z3.IntSort()), fresh(name + '_ks', z3.ArraySort(z3.IntSort(), sort_of(ty.k))),
+                   fresh(name + '_pos', z3.ArraySort(sort_of(ty.k), z3.IntSort())), fresh(name + '_val', z3.ArraySort(sort_of(ty.k), sort_of(ty.v)))))
+        facts.extend(omap_inv(m)); return m
     if isinstance(ty, TMap):
         dom = fresh(name + '_dom', z3.ArraySort(sort_of(ty.k), z3.BoolSort()))
         val = fresh(name + '_val', z3.ArraySort(sort_of(ty.k), sort_of(ty.v)))
@@ -206,6 +243,19 @@ def havoc(ty, name, facts):
         facts.extend(set_facts(dom, card, TSet(ty.k)))
         return V(ty, (dom, val, card))
     raise Unsupported('havoc %r' % ty)
+
+def type_facts(v, out=None):
+    """facts true of every value of the type (sound to assume for values read from the heap / returned by callees)"""
+    if out is None: out = []
+    ty = v.ty
+    if isinstance(ty, TSeq): out.append(v.t[0] >= 0)
+    elif isinstance(ty, TSet): out.extend(set_facts(v.t[0], v.t[1], ty))
+    elif isinstance(ty, TMap): out.extend(set_facts(v.t[0], v.t[2], TSet(ty.k)))
+    elif isinstance(ty, TOMap): out.extend(omap_inv(v))
+    elif isinstance(ty, TOpt): type_facts(v.t[1], out)
+    elif isinstance(ty, TTuple): [type_facts(x, out) for x in v.t]
+    elif isinstance(ty, TRec): [type_facts(x, out) for x in v.t.values()]
+    return out
 
 def empty_set_term(elem_ty):
     return z3.K(sort_of(elem_ty), z3.BoolVal(False))
@@ -255,6 +305,8 @@ def coerce(v, ty):
         if isinstance(v.ty, TOpt):
             return V(ty, (v.t[0], coerce(v.t[1], ty.inner)))
         return V(ty, (z3.BoolVal(False), coerce(v, ty.inner)))
+    if isinstance(v.ty, TTuple) and not v.t and isinstance(ty, TOMap):
+        return V(ty, (z3.IntVal(0), z3.K(z3.IntSort(), pack(default_value(ty.k))), z3.K(sort_of(ty.k), z3.IntVal(-1)), z3.K(sort_of(ty.k), pack(default_value(ty.v)))))
     if isinstance(v.ty, TTuple) and not v.t and isinstance(ty, (TMap, TSet)):
         if isinstance(ty, TSet): return V(ty, (empty_set_term(ty.elem), z3.IntVal(0)))
         return V(ty, (empty_set_term(ty.k), z3.K(sort_of(ty.k), pack(default_value(ty.v))), z3.IntVal(0)))
@@ -321,7 +373,7 @@ def _ite(c, a, b, ty):
     if isinstance(ty, TOpt): return V(ty, (z3.If(c, a.t[0], b.t[0]), _ite(c, a.t[1], b.t[1], ty.inner)))
     if isinstance(ty, TTuple): return V(ty, [_ite(c, x, y, t) for x, y, t in zip(a.t, b.t, ty.items)])
     if isinstance(ty, TRec): return V(ty, {n: _ite(c, a.t[n], b.t[n], t) for n, t in ty.fields})
-    if isinstance(ty, (TSeq, TSet, TMap)): return V(ty, tuple(z3.If(c, x, y) for x, y in zip(a.t, b.t)))
+    if isinstance(ty, (TSeq, TSet, TMap, TOMap)): return V(ty, tuple(z3.If(c, x, y) for x, y in zip(a.t, b.t)))
     raise Unsupported('ite %r' % ty)
 
 def seq_get(v, i):
@@ -375,6 +427,10 @@ def veq(a, b):
     if isinstance(tb, TSeq) and isinstance(ta, TTuple): a = coerce(a, TSeq(_join_all(ta.items)) if ta.items else tb); ta = a.ty
     if isinstance(ta, TSeq) and isinstance(tb, TSeq): return seq_eq(a, b)
     if isinstance(ta, TSet) and isinstance(tb, TSet): return a.t[0] == b.t[0]
+    if isinstance(ta, TOMap) and isinstance(tb, TOMap):
+        i = fresh('qi', z3.IntSort())
+        return z3.And(a.t[0] == b.t[0], z3.ForAll([i], z3.Implies(z3.And(i >= 0, i < a.t[0]),
+                      z3.And(a.t[1][i] == b.t[1][i], a.t[3][a.t[1][i]] == b.t[3][a.t[1][i]]))))
     if isinstance(ta, TMap) and isinstance(tb, TMap):
         k = fresh('qk', sort_of(ta.k))
         return z3.And(a.t[0] == b.t[0], z3.ForAll([k], z3.Implies(a.t[0][k], a.t[1][k] == b.t[1][k])))
@@ -392,12 +448,13 @@ def truth(v):
     if ty is TBool: return v.t
     if ty is TInt: return v.t != 0
     if ty is TFloat: return v.t != 0
-    if ty is TStr: return z3.Length(v.t) > 0
+    if ty is TStr or ty is TBytes: return z3.Length(v.t) > 0
     if ty is TNone: return z3.BoolVal(False)
     if isinstance(ty, TOpt): return z3.And(z3.Not(v.t[0]), truth(v.t[1]))
     if isinstance(ty, TSeq): return v.t[0] > 0
     if isinstance(ty, TSet): return v.t[1] > 0
     if isinstance(ty, TMap): return v.t[2] > 0
+    if isinstance(ty, TOMap): return v.t[0] > 0
     if isinstance(ty, TTuple): return z3.BoolVal(len(v.t) > 0)
     if isinstance(ty, TEnum):
         if ty.intvalued: return ty.value_term(v.t) != 0
